@@ -49,6 +49,7 @@ var endpointOptions = map[string][]Options{
 	"tempo_search":    {{}, {Name: "window_durations", Window: true}, {Name: "nolimit", NoLimit: true}},
 	"tempo_values_v1": {{}, {Name: "cluster", Cluster: true}},
 	"tempo_trace":     {{}, {Name: "window", Window: true}},
+	"auto":            {{}},
 	"prom_range":      {{}}, // the five hint shapes (raw / downsampled, instant / range function, rows, cluster) are base sites
 	"prof_select_series": {{}, {Name: "average", Average: true}, {Name: "group_by", GroupBy: true},
 		{Name: "average_group_by_step60_cluster", Average: true, GroupBy: true, Step60: true, Cluster: true}},
@@ -65,6 +66,7 @@ var endpointByID = []struct {
 	re *regexp.Regexp
 	ep string
 }{
+	{regexp.MustCompile(`^auto/`), "auto"},
 	{regexp.MustCompile(`^logql/.*/direct`), "logql_direct"},
 	{regexp.MustCompile(`^logql/`), "logql_range"},
 	{regexp.MustCompile(`^labels/(values_|prom_values_)`), "label_values"},
